@@ -34,6 +34,7 @@ def plan (tier, seed):
     out += [dict (kind = 'series',  i = i, seed = seed) for i in range (150 * k)]
     out += [dict (kind = 'neutral', i = i, seed = seed) for i in range (40 * k)]
     out += [dict (kind = 'dist',    i = i, seed = seed) for i in range (120 * k)]
+    out += [dict (kind = 'forms',   i = i, seed = seed) for i in range (50 * k)]
     return out
 # end def plan
 
@@ -364,54 +365,99 @@ def check_dist (c):
         return dict (status = 'discard', reason = 'no distributed load drawn')
     spec ['loads'] = loads
     m = gen.build (spec)
-    w = 2 * np.pi * m.f * 1e6
-    # expected per-pulse impedance: every real half-segment of the pulse with the constants of the wire it lies on
-    expect_skin, expect_ins = {}, {}
-    skin_tol = {}
-    for p in m.pulses:
-        zs, zi, has_s, has_i = 0j, 0j, False, False
-        for k in (0, 1):
-            if p.ground [k]:
-                continue
-            g   = p.segs [k].geobj
-            prm = par.get (g.tag, {})
-            half = p.segs [k].seg_len / 2
-            a = g.r_orig
-            if 'sigma' in prm:
-                z, ka = z_int (m.f, a, prm ['sigma'])
-                zs += z * half
-                has_s = True
-                # for |k a| >= 110 the program documents the asymptote J0 / J1 -> j; first neglected term 1 / (2 k a)
-                skin_tol [p.idx] = max (skin_tol.get (p.idx, 1e-6), 1e-6 if ka < 110 else 1.0 / ka)
-            if 'b' in prm:
-                zi += 1j * w * l_ins (a, prm ['b'], prm ['eps']) * half
-                has_i = True
-        if has_s:
-            expect_skin [p.idx] = zs
-        if has_i:
-            expect_ins [p.idx] = zi
-    got_skin, got_ins = {}, {}
-    for l in m.loads:
-        nm = l.__class__.__name__
-        for p in l.pulses:
-            z = complex (common.guarded (lambda: l.impedance (m.f, p), 'impedance'))
-            tgt = got_skin if nm == 'Skin_Effect_Load' else got_ins
-            # a junction pulse between two loaded wires is attached to both wires' load objects; each
-            # reports the total of both halves: count it once per load object and compare per object
-            tgt.setdefault (p.idx, []).append (z)
-    for nm, exp, got, rel in (('skin', expect_skin, got_skin, 1e-6), ('ins', expect_ins, got_ins, 1e-9)):
-        if set (exp) != set (got):
-            j.viol.append (dict (monitor = 'dist.attach', key = 'dist-attach-' + nm, msg = '%s load attached to pulses %s, expected %s' % (nm, sorted (x + 1 for x in got), sorted (x + 1 for x in exp))))
-            continue
-        for i, want in exp.items ():
-            for z in got [i]:
-                j.judge ('dist.' + nm, abs (z - want) / abs (want) if abs (want) else abs (z), (skin_tol.get (i, rel) if nm == 'skin' else rel), '%s load on pulse %d: %r, closed form x conductor length %r' % (nm, i + 1, z, want), key = 'dist-' + nm)
-    # matrix: every loaded pulse gets the sum of its load objects' impedances exactly once per object
+    f0 = m.f
+    # the same object at a second frequency: the distributed loads follow the frequency
+    for f_now, sfx in ((f0, ''), (f0 * float (rng.choice ([0.37, 0.6, 1.9, 3.1])), '.f2')):
+      m.f = f_now
+      w = 2 * np.pi * m.f * 1e6
+      # expected per-pulse impedance: every real half-segment of the pulse with the constants of the wire it lies on
+      expect_skin, expect_ins = {}, {}
+      skin_tol = {}
+      for p in m.pulses:
+          zs, zi, has_s, has_i = 0j, 0j, False, False
+          for k in (0, 1):
+              if p.ground [k]:
+                  continue
+              g   = p.segs [k].geobj
+              prm = par.get (g.tag, {})
+              half = p.segs [k].seg_len / 2
+              a = g.r_orig
+              if 'sigma' in prm:
+                  z, ka = z_int (m.f, a, prm ['sigma'])
+                  zs += z * half
+                  has_s = True
+                  # for |k a| >= 110 the program documents the asymptote J0 / J1 -> j; first neglected term 1 / (2 k a)
+                  skin_tol [p.idx] = max (skin_tol.get (p.idx, 1e-6), 1e-6 if ka < 110 else 1.0 / ka)
+              if 'b' in prm:
+                  zi += 1j * w * l_ins (a, prm ['b'], prm ['eps']) * half
+                  has_i = True
+          if has_s:
+              expect_skin [p.idx] = zs
+          if has_i:
+              expect_ins [p.idx] = zi
+      got_skin, got_ins = {}, {}
+      for l in m.loads:
+          nm = l.__class__.__name__
+          for p in l.pulses:
+              z = complex (common.guarded (lambda: l.impedance (m.f, p), 'impedance'))
+              tgt = got_skin if nm == 'Skin_Effect_Load' else got_ins
+              # a junction pulse between two loaded wires is attached to both wires' load objects; each
+              # reports the total of both halves: count it once per load object and compare per object
+              tgt.setdefault (p.idx, []).append (z)
+      for nm, exp, got, rel in (('skin', expect_skin, got_skin, 1e-6), ('ins', expect_ins, got_ins, 1e-9)):
+          if set (exp) != set (got):
+              j.viol.append (dict (monitor = 'dist.attach', key = 'dist-attach-' + nm, msg = '%s load attached to pulses %s, expected %s' % (nm, sorted (x + 1 for x in got), sorted (x + 1 for x in exp))))
+              continue
+          for i, want in exp.items ():
+              for z in got [i]:
+                  j.judge ('dist.' + nm + sfx, abs (z - want) / abs (want) if abs (want) else abs (z), (skin_tol.get (i, rel) if nm == 'skin' else rel), '%s load on pulse %d at %.6g MHz%s: %r, closed form x conductor length %r' % (nm, i + 1, m.f, ' (same object, first used at %.6g MHz)' % f0 if sfx else '', z, want), key = 'dist-' + nm + ('-after-frequency-change' if sfx else ''))
+    m.f = f0
     sig = 'dist|%s|%s|%s|%s' % ('+'.join (sorted (set (l ['k'] + ('T' if l.get ('tag') else 'A') for l in loads))), spec.get ('fam'), 'gnd' if m.media is not None else 'free'
                                , 'G' if any (p.ground.any () for p in m.pulses) else '')
     return dict (status = 'violation' if j.viol else 'held', sig = sig, nontrivial = True, margin = j.worst, monitors = j.mon, violations = j.viol)
 # end def check_dist
 
+def check_forms (c):
+    """ a load given to the whole antenna / a whole object acts like the same load given to each of its pulses """
+    rng  = np.random.default_rng ([c ['seed'], 85, c ['i']])
+    spec = gen.clean (base_model (rng))
+    for i, g in enumerate (spec ['geo']):
+        g ['tag'] = i + 1
+        g ['taper'] = None
+    if any ('p' in s for s in spec ['src']):
+        return dict (status = 'discard', reason = 'no feed by location')
+    l0 = rnd_load (rng)
+    ld = dict (k = 'z', z = [float (10 ** rng.uniform (0, 2.5)), float (rng.uniform (-200, 200))])
+    j  = J ()
+    m0 = gen.build (spec)
+    N  = len (m0.pulses)
+    tag = int (rng.integers (1, len (spec ['geo']) + 1))
+    obj = {g.tag: g for g in m0.geo} [tag]
+    forms = [ ('all', [['all']], [[k] for k in range (1, N + 1)])
+            , ('all-obj', [['all', tag]], [[k + 1, tag] for k in range (len (obj.pulses))]) ]
+    for name, a1, a2 in forms:
+        if not a2:
+            continue
+        ma = gen.build (dict (spec, loads = [dict (ld, att = a1)]))
+        mb = gen.build (dict (spec, loads = [dict (ld, att = a2)]))
+        pa = sorted (p.idx for l in ma.loads for p in l.pulses)
+        pb = sorted (p.idx for l in mb.loads for p in l.pulses)
+        j.mon ['forms.' + name] = 1
+        if pa != pb:
+            j.viol.append (dict (monitor = 'forms.' + name, key = 'attach-' + name, msg = '--attach-load %s loads pulses %s, pulse by pulse %s' % (a1 [0], [x + 1 for x in pa], [x + 1 for x in pb])))
+            continue
+        observe.solve (ma); observe.solve (mb)
+        d = np.abs (np.array (ma.Z).diagonal () - np.array (mb.Z).diagonal ()).max () / np.abs (np.array (mb.Z).diagonal ()).max ()
+        j.judge ('forms.matrix.' + name, d + 1e-300, 1e-12, 'matrix diagonal differs by %.3g between --attach-load %s and the same load on every pulse' % (d, a1 [0]), key = 'attach-' + name)
+        za, zb = complex (ma.sources [0].impedance), complex (mb.sources [0].impedance)
+        cond = observe.cond_number (mb)
+        if np.isfinite (cond) and cond < 1e7:
+            j.judge ('forms.impedance.' + name, abs (za - zb) / abs (zb), 1e-10 * max (cond, 1.0), 'feed impedance %r with --attach-load %s, %r with the same load on every pulse' % (za, a1 [0], zb), key = 'attach-' + name)
+    nj = sum (1 for p in m0.pulses if p.geo [0] is not p.geo [1])
+    sig = 'forms|%s|%s|j%d|g%d' % (spec.get ('fam'), 'gnd' if m0.media is not None else 'free', min (nj, 3), sum (1 for p in m0.pulses if p.ground.any ()))
+    return dict (status = 'violation' if j.viol else 'held', sig = sig, nontrivial = nj > 0, margin = j.worst, monitors = j.mon, violations = j.viol)
+# end def check_forms
+
 def check (c):
-    return dict (circuit = check_circuit, series = check_series, neutral = check_neutral, dist = check_dist) [c ['kind']] (c)
+    return dict (circuit = check_circuit, series = check_series, neutral = check_neutral, dist = check_dist, forms = check_forms) [c ['kind']] (c)
 # end def check
